@@ -33,8 +33,33 @@ def run(ctx):
     # ---- correspondence: WcSplit and the list loops -----------------------------------------------------------
     from wclib import strings_upto
     pats = list(strings_upto('a|\\[]!(@*/)', 4 if ctx.quick else 6))
-    ctx.corr('wcsplit', corr.corr_wcsplit(pats, [F('SPLIT'), F('SPLIT', 'EXTMATCH'), F('SPLIT', 'EXTMATCH', 'PATHNAME'),
-                                                 F('SPLIT', 'FORCEWIN', 'EXTMATCH', 'PATHNAME')]))
+    res_split = corr.corr_wcsplit(pats, [F('SPLIT'), F('SPLIT', 'EXTMATCH'), F('SPLIT', 'EXTMATCH', 'PATHNAME'),
+                                         F('SPLIT', 'FORCEWIN', 'EXTMATCH', 'PATHNAME')])
+    ctx.corr('wcsplit', res_split)
+    # directed search: where the implementation cuts a pattern differently from the model, look for a name on which the
+    # SPLIT law fails (pattern under SPLIT == the list of the pieces the specification cuts it into)
+    import itertools as _it
+    nds = 0
+    for d in res_split.get('disagreements', [])[:400]:
+        if d.get('kind') != 'wcsplit' or d.get('impl') is None or nds >= 3:
+            continue
+        pt, fv_, pieces = d['pattern'], d['flags'], d['model']
+        glob_m = bool(fv_ & F('PATHNAME'))
+        base_f = (Gm.FORCEWIN if fv_ & F('FORCEWIN') else Gm.FORCEUNIX) | (W.EXTMATCH if fv_ & F('EXTMATCH') else 0) | W.DOTMATCH
+        al_ = sorted(set(c for c in pt if c not in '\\')) + ['x']
+        mt_ = (lambda n_, p_, f_: Gm.globmatch(n_, p_, flags=f_)) if glob_m else (lambda n_, p_, f_: Fm.fnmatch(n_, p_, flags=f_))
+        for n_ in (''.join(t) for k in range(1, 5) for t in _it.product(al_[:5], repeat=k)):
+            try:
+                got = mt_(n_, pt, base_f | W.SPLIT)
+                want = any(mt_(n_, pc, base_f) for pc in pieces if pc != '')
+            except Exception:
+                continue
+            if got != want:
+                nds += 1
+                ctx.counterexample('%s(%r, %r, %s|SPLIT) = %r but the pieces between its top-level `|` are %r, of which %s matches' % (
+                    'globmatch' if glob_m else 'fnmatch', n_, pt, corr.flag_names(base_f), got, pieces, 'one' if want else 'none'),
+                    {'name': n_, 'pattern': pt, 'flags': corr.flag_names(base_f | W.SPLIT), 'pieces': pieces, 'implementation_pieces': d.get('impl')})
+                break
     toks = ['a', 'b', '*', '?', '!', '-', '|', '{a,b}', '{1..3}', 'x', '!(a)', '[ab]', '/', '.', '**', '\\', '(', ')']
     cases = []
     for i in range(1500 if ctx.quick else 15000):
@@ -182,6 +207,34 @@ def run(ctx):
         if len(samples) < 4:
             samples.append({'written': written, 'exclude': kw.get('exclude'), 'flags': corr.flag_names(flagv)})
     ctx.counted('list call vs single-pattern decomposition', evals, len(nontriv), samples)
+    # order never matters - also for whether the call is accepted at all: a list whose expansions fit the limit in one order
+    # fits it in every order (every entry point; limits around the total)
+    nperm = 0
+    nbad = 0
+    for it in range(60 if ctx.quick else 600):
+        counts = [rng.randint(1, 4) for _ in range(rng.randint(3, 4))]
+        plist = [('%s{%s}' % (chr(97 + i), ','.join(str(k) for k in range(1, n + 1))) if n > 1 else chr(97 + i) + '1') for i, n in enumerate(counts)]
+        tot = sum(counts)
+        for lim in (tot, tot + 1, tot - 1, 2 * tot):
+            outcomes = {}
+            for perm in _it.permutations(plist):
+                for api_name, fn in (('fnmatch', lambda pl: Fm.fnmatch('c2', pl, flags=Fm.BRACE | Fm.SPLIT, limit=lim)),
+                                     ('globmatch', lambda pl: Gm.globmatch('c2', pl, flags=Gm.BRACE, limit=lim)),
+                                     ('translate', lambda pl: len(Fm.translate(pl, flags=Fm.BRACE, limit=lim)[0])),
+                                     ('compile', lambda pl: Gm.compile(pl, flags=Gm.BRACE, limit=lim).match('c2'))):
+                    nperm += 1
+                    try:
+                        r_ = fn(list(perm))
+                    except W.PatternLimitException:
+                        r_ = 'PatternLimitException'
+                    outcomes.setdefault(api_name, {}).setdefault(repr(r_), list(perm))
+            for api_name, oc in outcomes.items():
+                if len(oc) > 1 and nbad < 3:
+                    nbad += 1
+                    (r1, p1), (r2, p2) = list(oc.items())[:2]
+                    ctx.counterexample('%s with limit=%d: %r gives %s but the same patterns in the order %r give %s (%d expansions in all)' % (
+                        api_name, lim, p1, r1, p2, r2, tot), {'api': api_name, 'limit': lim, 'patterns': p1, 'reordered': p2, 'flags': 'BRACE'})
+    ctx.counted('order of a list vs the pattern limit', nperm, nperm // 2, [{'patterns': ['a{1,2}', 'b{1,2}', 'c{1,2}'], 'limit': 6}])
     return ctx.finish(RULE)
 
 
